@@ -5,6 +5,7 @@ Line-protocol driver for C10 (see harness/cmd/vh/c10.go for the grammar).
       D <t0:8 ints> <t1:8 ints> <hour1900> I <date1904> <unix seconds of t0>
       L <n> { <code> <ok> <era> <ap> <m3> <m4> <m5> <wdA> <wd> <m3'> <m4'> <m5'> <wdA'> <wd'> }
       S <n> { <type> <k> { <ttype> <tvalue> <p> { <ptype> <pvalue> <langok> } } }
+      O <hasLongDate> [<n> sections] <hasLongTime> [<n> sections]      Options patterns, tokenised by nfp
     -> <ok hex | PANIC | UNMODELLED> C=<conf> X=<exact fixed rendering | -> T=<fields = C19 civilOf of the instant> A=<AM/PM patterns in the regenerated table>
   comma <text>      -> printCommaSep
 All strings hex ("-" = empty).
@@ -148,12 +149,23 @@ def fmtOp : P String := do
   lit "S"
   let ns ← nat
   let secs ← many sec ns
+  lit "O"
+  let optSecs : P (Option (List Sec)) := do
+    let has ← flag
+    if has then
+      let k ← nat
+      let ss ← many sec k
+      pure (some ss)
+    else pure none
+  let ld ← optSecs
+  let lt ← optSecs
   let n := F64.numIn isNum prec pf absS big0 big1
   let look (sel : LocRow → Locale) (code : Str) : Locale :=
     match rows.find? (fun r => r.code = code) with
     | some r => sel r
     | none => noLocale
-  let d : DateIn := { t0 := t0, t1 := t1, hour1900 := h1900, loc0 := look (·.l0), loc1 := look (·.l1) }
+  let d0 : DateIn := { t0 := t0, t1 := t1, hour1900 := h1900, loc0 := look (·.l0), loc1 := look (·.l1) }
+  let d := applyOptions d0 ld lt value cellNumeric n
   let r := match format secs value cellNumeric n d with
     | .ok s => "ok " ++ hexS s
     | .panic => "PANIC"
